@@ -52,6 +52,49 @@ def replay(model, obligation):
         if ran != ['before'] or queued:
             fails.append('tasks run: %r (expected only the one scheduled before shutdown); %d entries still queued after shutdown' % (ran, queued))
         return {'reproduced': bool(fails), 'detail': '; '.join(fails) or 'nothing scheduled after shutdown ran or stayed queued'}
+    if '/HostConnectionPool.' in obligation:
+        # the real legacy (v1/v2) pool: shutdown() alone, and shutdown() arriving inside each blocking call of _add_conn_if_under_max
+        from cassandra.pool import HostConnectionPool
+        from contracts.native.c12 import Conn as PConn
+
+        def legacy(conns, trash, factory, keyspace=None):
+            lp = HostConnectionPool.__new__(HostConnectionPool)
+            sess = types.SimpleNamespace(keyspace=keyspace, cluster=types.SimpleNamespace(connection_factory=factory, get_max_connections_per_host=lambda d: 8,
+                                                                                          signal_connection_failure=lambda *a, **k: False))
+            lp._session, lp.host, lp.host_distance, lp._lock, lp.is_shutdown = sess, types.SimpleNamespace(endpoint='ep'), 0, threading.RLock(), False
+            lp._connections, lp._trash, lp.open_count, lp._keyspace = list(conns), set(trash), len(conns), None
+            lp._next_trash_allowed_at, lp._scheduled_for_creation = 0, 0
+            lp._conn_available_condition = threading.Condition()
+            return lp
+        for nc, nt in ((0, 0), (1, 0), (2, 1)):
+            conns, trash = [PConn('c%d' % i) for i in range(nc)], [PConn('t%d' % i) for i in range(nt)]
+            lp = legacy(conns, trash, None)
+            lp.shutdown()
+            lp.shutdown()
+            if not lp.is_shutdown or any(len(c.closed_with) != 1 for c in conns + trash) or lp.open_count != 0:
+                fails.append('shutdown() of a legacy pool with %d connections and %d trashed: closes per connection %r, open_count %d'
+                             % (nc, nt, [len(c.closed_with) for c in conns + trash], lp.open_count))
+        for when in ('while-opening', 'while-selecting-the-keyspace'):
+            opened = []
+
+            class NewConn(PConn):
+                def set_keyspace_blocking(self, ks):
+                    if when == 'while-selecting-the-keyspace':
+                        lp.shutdown()
+                    self.keyspace = ks
+
+            def factory(ep, **kw):
+                if when == 'while-opening':
+                    lp.shutdown()
+                opened.append(NewConn('new'))
+                return opened[-1]
+            c0 = PConn('c0')
+            lp = legacy([c0], [], factory, keyspace='ks')
+            lp._add_conn_if_under_max()
+            left = [c.name for c in [c0] + opened if not c.is_closed]
+            if left:
+                fails.append('shutdown() %s in _add_conn_if_under_max: connections left open on the shut-down pool: %r' % (when, left))
+        return {'reproduced': bool(fails), 'detail': '; '.join(fails[:2]) or 'the legacy pool closes everything it opened'}
     if '/requests-after-shutdown/' in obligation:
         from cassandra.cluster import NoHostAvailable
         for states in ((), ('shutdown',), (None,), ('shutdown', None), ('shutdown', 'shutdown')):
